@@ -55,6 +55,13 @@ CHECKS.update(
         note="Rule table in pvlib/harness/c06.py is the oracle (transcribed from docs/user/nonmult.rst and the property statement). Exact arithmetic; real exp/log accuracy outside; scales assumed > 0.",
         design="4/C06",
     ),
+    C07=dict(
+        text="Expression strings (all skeletons with 2-3 leaves over + - * / // ** unary signs and parentheses, sampled 4-leaf ones, juxtaposition variants) are evaluated by the real tokenizer/tree builder/evaluator "
+        "with symbolic leaf values and by Python's own compiler on the same symbolic numbers; equality is proved for all leaf values (exponent leaves: small integers, solver-realised). Spelling variants with symbolic "
+        "number literals are proved equal to the canonical spelling; ParserHelper.from_string scale bookkeeping likewise; numeric literal types per registry; every ill-formed token sequence up to length 4 must raise.",
+        note="The no-code-execution / no-I/O clause is outside (audit-hook territory, not encodable); '%' is not an operator of parse_expression (it is preprocessed into percent); skeletons needing real powers of symbolic bases are skipped.",
+        design="4/C07",
+    ),
     C08=dict(
         text="Name resolution of the real registry: (SX) every string over the alphabet of two generated colliding registries up to length 5 and the prefix x unit x plural cross product of the default registry "
         "are resolved; the reading must be allowed by the documented rule, undefined strings must raise, name/symbol must be the definition's, the answer must not depend on earlier lookups, and the root magnitude is "
